@@ -233,7 +233,7 @@ type mutator struct {
 
 func (m *mutator) pick(n int) int { return m.rng.Intn(n) }
 
-const nByteMutations, nPropMutations = 16, 12
+const nByteMutations, nPropMutations = 16, 13
 
 // byteMutant applies one random byte-level mutation to b.
 func (m *mutator) byteMutant(b []byte, other []byte) mutant {
@@ -362,7 +362,12 @@ func (m *mutator) propMutantN(n int, b []byte, p *mqttx.Packet) (mutant, bool) {
 			at := m.pick(len(toks) + 1)
 			nt := append(append(append([][]byte{}, toks[:at]...), t), toks[at:]...)
 			pr := join(nt)
-			return mutant{kind: "prop-duplicate", in: withProps(b, lenAt, end, canon(pr), pr)}, true
+			mt := mutant{kind: "prop-duplicate", in: withProps(b, lenAt, end, canon(pr), pr)}
+			if len(t) > 0 && t[0] != 0x26 && !(t[0] == 0x0B && p.Type == mqttx.PUBLISH) {
+				// every property but User Property (and Subscription Identifier in PUBLISH) may appear once only
+				mt.mustReject = "field=Props:class=duplicate"
+			}
+			return mt, true
 		}
 		fallthrough
 	case 1:
@@ -416,6 +421,31 @@ func (m *mutator) propMutantN(n int, b []byte, p *mqttx.Packet) (mutant, bool) {
 		t = t[:1+m.pick(len(t)-1)]
 		pr := append(append([]byte{}, props...), t...)
 		return mutant{kind: "prop-truncated", in: withProps(b, lenAt, end, canon(pr), pr)}, true
+	case 11:
+		// a once-only string / binary property twice, the first occurrence with the (legal) zero-length value:
+		// "already present" must not be decided from the length of the stored value
+		allowed := map[string]bool{}
+		for _, n := range propNames[p.Type] {
+			allowed[n] = true
+		}
+		var ids []byte
+		for _, id := range []byte{0x03, 0x08, 0x09, 0x12, 0x15, 0x16, 0x1A, 0x1C, 0x1F} {
+			if allowed[propIDName[id]] {
+				ids = append(ids, id)
+			}
+		}
+		if len(ids) > 0 {
+			id := ids[m.pick(len(ids))]
+			pr := []byte{id, 0, 0}
+			for _, t := range toks {
+				if len(t) > 0 && t[0] != id {
+					pr = append(pr, t...)
+				}
+			}
+			pr = append(pr, id, 0, 1, 'x')
+			return mutant{kind: "prop-duplicate-empty-first", in: withProps(b, lenAt, end, canon(pr), pr), mustReject: "field=Props:class=duplicate_after_empty"}, true
+		}
+		fallthrough
 	default:
 		// string property with a huge declared length
 		pr := append(append([]byte{}, props...), 0x26, 0xFF, 0xFF, 'k')
